@@ -141,6 +141,13 @@ Definition all_same_mod_concat (sch : schema) (l : list (res entries)) : bool :=
   | r0 :: rest => forallb (same_mod_concat sch r0) rest
   end.
 
+(* merge(o1, o2, ..., on): what the executor computes from the outputs of n handlers *)
+Definition merge_list (sch : schema) (l : list entries) : res entries :=
+  match l with
+  | [] => Ok []
+  | a :: r => merge_all sch a r
+  end.
+
 Definition bind (r : res entries) (f : entries -> res entries) : res entries :=
   match r with Ok x => f x | Err e => Err e end.
 
